@@ -111,6 +111,8 @@ type wireScript struct {
 	Merr  string      `json:"merr"`
 	Items []wireCodes `json:"items"`
 	Iterr string      `json:"iterr"`
+	Rfail int         `json:"rfail"` // 0: a reader serves all it holds; k+1: it fails after k bytes (if it holds more)
+	Rcerr string      `json:"rcerr"` // answer of a reader's Close ("" = ok)
 }
 
 type wireOpts struct {
@@ -156,6 +158,7 @@ type wireObj struct {
 	Written int       `json:"written"`
 	Commits int       `json:"commits"`
 	Cdig    wireCodes `json:"cdig"`
+	Rfailed bool      `json:"rfailed"` // a reader: it returned its scripted mid-stream error
 }
 
 var wireStdErrors = map[string]error{
@@ -173,7 +176,7 @@ var wireAnswers = []string{"ok", "uncoded", "BLOB_UNKNOWN", "BLOB_UPLOAD_INVALID
 	"UNAUTHORIZED", "DENIED", "UNSUPPORTED", "TOOMANYREQUESTS", "RANGE_INVALID"}
 
 func wireErr(ans string) error {
-	if ans == "ok" {
+	if ans == "ok" || ans == "" {
 		return nil
 	}
 	if e, ok := wireStdErrors[ans]; ok {
@@ -225,19 +228,39 @@ func (b *wireBackend) content() []byte {
 }
 
 type wireReader struct {
-	obj  *wireObj
-	rd   *bytes.Reader
-	desc ociregistry.Descriptor
+	obj    *wireObj
+	rd     *bytes.Reader
+	desc   ociregistry.Descriptor
+	failAt int // -1: never; k: Read fails once k bytes have been served (only set when more than k are held)
+	served int
+	cerr   error
 }
 
-func (r *wireReader) Read(p []byte) (int, error)         { return r.rd.Read(p) }
-func (r *wireReader) Close() error                       { r.obj.Closes++; return nil }
+func (r *wireReader) Read(p []byte) (int, error) {
+	if r.failAt >= 0 {
+		if r.served >= r.failAt {
+			r.obj.Rfailed = true
+			return 0, errors.New("scripted read failure in mid-stream")
+		}
+		if len(p) > r.failAt-r.served {
+			p = p[:r.failAt-r.served]
+		}
+	}
+	n, err := r.rd.Read(p)
+	r.served += n
+	return n, err
+}
+func (r *wireReader) Close() error                       { r.obj.Closes++; return r.cerr }
 func (r *wireReader) Descriptor() ociregistry.Descriptor { return r.desc }
 
 func (b *wireBackend) reader(data []byte) ociregistry.BlobReader {
 	o := &wireObj{K: "r", Cdig: wireCodes{}}
 	b.objs = append(b.objs, o)
-	return &wireReader{obj: o, rd: bytes.NewReader(data), desc: b.desc(b.sc.Size)}
+	failAt := -1
+	if b.sc.Rfail > 0 && b.sc.Rfail-1 < len(data) {
+		failAt = b.sc.Rfail - 1
+	}
+	return &wireReader{obj: o, rd: bytes.NewReader(data), desc: b.desc(b.sc.Size), failAt: failAt, cerr: wireErr(b.sc.Rcerr)}
 }
 
 type wireWriter struct {
@@ -431,6 +454,17 @@ func wireSha(b []byte) string { return fmt.Sprintf("sha256:%x", sha256.Sum256(b)
 
 // ---------------------------------------------------------------- one call
 
+// wireRW counts the status lines the handler writes (the recorder keeps the first only).
+type wireRW struct {
+	*httptest.ResponseRecorder
+	nwh int
+}
+
+func (w *wireRW) WriteHeader(code int) {
+	w.nwh++
+	w.ResponseRecorder.WriteHeader(code)
+}
+
 type wireEv = map[string]any
 
 // the two kinds of event (field order = order in the trace line)
@@ -497,6 +531,9 @@ func wireRun(c wireCase) (ev any) {
 	if c.Sc.Items == nil {
 		c.Sc.Items = []wireCodes{}
 	}
+	if c.Sc.Rcerr == "" {
+		c.Sc.Rcerr = "ok"
+	}
 	defer func() {
 		if r := recover(); r != nil {
 			ev = wirePanicEv{Op: "panic", Msg: wirePrintable(fmt.Sprintf("%v [%s %s]", r, c.Rq.M, c.Rq.Path.str())), In: c}
@@ -536,10 +573,11 @@ func wireRun(c wireCase) (ev any) {
 		RequestURI:    "",
 	}).WithContext(context.Background())
 	rec := httptest.NewRecorder()
-	srv.ServeHTTP(rec, req)
+	rw := &wireRW{ResponseRecorder: rec}
+	srv.ServeHTTP(rw, req)
 
 	res := rec.Result()
-	out := wireEv{"status": rec.Code, "nbody": rec.Body.Len()}
+	out := wireEv{"status": rec.Code, "nbody": rec.Body.Len(), "nwh": rw.nwh}
 	hs := wireEv{}
 	for k, name := range map[string]string{"loc": "Location", "dcd": "Docker-Content-Digest", "clen": "Content-Length", "range": "Range",
 		"crange": "Content-Range", "chunkmin": "OCI-Chunk-Min-Length", "link": "Link", "ctype": "Content-Type", "subject": "OCI-Subject"} {
@@ -1120,6 +1158,11 @@ func wireRandom(r *rand.Rand) wireCase {
 			c.Sc.Items = append(c.Sc.Items, wireOf(wireOne(r, "a", "b", "c", "latest", "v1.0", "foo/bar", "x y", "é", "a&b=c", wirePick(r, wireLow, 1+r.Intn(5)))))
 		}
 	}
+	// reader faults
+	if r.Intn(8) == 0 {
+		c.Sc.Rfail = 1 + r.Intn(c.Sc.Size+2)
+	}
+	c.Sc.Rcerr = ans(88)
 	// options
 	if r.Intn(3) == 0 {
 		c.O = wireOpts{Noref: r.Intn(2) == 0, Nosingle: r.Intn(2) == 0, Maxpage: r.Intn(4), Omitdig: r.Intn(2) == 0, Omitlink: r.Intn(2) == 0}
